@@ -11,6 +11,7 @@ import (
 	"net/http/httptest"
 	"os"
 	"sync"
+	"time"
 
 	f_note "github.com/transparency-dev/formats/note"
 	"github.com/transparency-dev/witness/internal/client"
@@ -178,14 +179,18 @@ func tileMain(args []string) error {
 				firstErr = err
 				return
 			}
+			failures := 0
 			for p := range ch {
+				if failures >= 5 {
+					continue // the feeder cannot build proofs at all: a handful of failing pairs is evidence enough
+				}
 				st, _ := newStore("inmem", "")
 				wit, err := newWitness(base, st.p)
 				if err != nil {
 					firstErr = err
 					return
 				}
-				ctx := context.Background()
+				ctx, cancel := context.WithTimeout(context.Background(), 4*time.Second)
 				r1 := l.Trees[0].Root(p.from)
 				text := ref.CheckpointText(l.Origin, p.from, r1[:], "")
 				if _, err := wit.Update(ctx, l.ID, 0, []byte(text+"\n"+l.Key.SignLegacy(text)), nil); err != nil {
@@ -195,6 +200,7 @@ func tileMain(args []string) error {
 				sl.Publish(0, p.to)
 				rw := &recWitness{inner: omniwitness.VerifWitnessAdapter(wit)}
 				ferr := sumdb.FeedLog(ctx, lc, rw, ts.Client(), 0)
+				cancel()
 				r2 := l.Trees[0].Root(p.to)
 				ev := tileEvent{E: "tile.proof", Run: tag, From: p.from, To: p.to}
 				rw.mu.Lock()
@@ -205,6 +211,9 @@ func tileMain(args []string) error {
 					ev.OldOK = rw.old == p.from
 				}
 				rw.mu.Unlock()
+				if !ev.Accepted || !ev.RefOK {
+					failures++
+				}
 				evMu.Lock()
 				ev.K = k
 				k++
